@@ -16,6 +16,7 @@ pub mod c15;
 pub mod c16;
 pub mod c17;
 pub mod c18;
+pub mod c19;
 
 pub fn get(id: &str) -> Option<Property> {
     Some(match id {
@@ -35,6 +36,7 @@ pub fn get(id: &str) -> Option<Property> {
         "C16" => c16::property(),
         "C17" => c17::property(),
         "C18" => c18::property(),
+        "C19" => c19::property(),
         _ => return None,
     })
 }
